@@ -199,6 +199,19 @@ impl<T: QElem> Judge<T> {
     }
 }
 
+/// True when `v` is admissible for strategy `s` under the single reading `r` of the position.
+pub fn accepts_under<T: QElem>(sorted: &[T], r: &crate::qoracle::Reading, s: Strat, v: &T) -> bool {
+    if T::IS_FLOAT {
+        let lane: Vec<f64> = sorted.iter().map(|x| x.as_f64()).collect();
+        let v = v.as_f64();
+        crate::qoracle::allowed_f64_r(&lane, r, s).iter().any(|(c, tol)| if *tol == 0.0 { v == *c } else { (v - c).abs() <= *tol })
+    } else {
+        let lane: Vec<i128> = sorted.iter().map(|x| x.as_i128()).collect();
+        let v = v.as_i128();
+        crate::qoracle::allowed_int_r(&lane, r, s).iter().any(|(a, b)| *a <= v && v <= *b)
+    }
+}
+
 /// Judges `got` (None = the call panicked) for a sorted lane.
 pub fn judge<T: QElem>(sorted: &[T], q: f64, s: Strat, got: Option<&T>) -> Verdict {
     Judge::new(sorted, q, s).judge(got)
